@@ -8,6 +8,8 @@
 //     written before;
 //   * MemTable::write: exactly the precondition of the skiplist (skipfree::SkipList::insert asserts the key is absent)
 //     at its call site, for such a batch; afterwards the memtable holds its old entries and the batch;
+//   * KeyValueStore::log_and_apply (entire): the log batch holds exactly the batch's entries in order, and the memtable is
+//     written only after the log acknowledged it (write-ahead);
 //   * MemTable::load: the newest version of the key not newer than the read timestamp, or its tombstone -- the contract
 //     unit lsmtk_load assumes of the memtable.
 // ASSUMED: the skiplist is an ordered map under Key's order (key ascending, timestamp descending): insert adds the pair,
@@ -357,6 +359,77 @@ impl MemTable {
 }
 
 //@ contract-lemma lemma_stamped_fresh
-//@ min-verified 6
+
+// ---------------------------------------------------------------- KeyValueStore::log_and_apply: write-ahead
+// The batch reaches the memtable only after the log acknowledged a batch holding exactly its entries, in order.
+// ASSUMED: sst::log::WriteBatch::insert adds the entry (unit log_cores: put / del); ConcurrentLogBuilder::append returns Ok only
+// for a batch that is written whole and covered by a completed fdatasync (unit log_cores: append); poison() hands the result on.
+spec fn batch_items(b: Seq<KeyValuePair>) -> Seq<Ent> { Seq::new(b.len(), |i: int| ent_of_pair(b[i])) }
+#[verifier::external_body]
+struct LogBatch { _p: u8 }
+#[verifier::external_body]
+struct KvRef { _p: u8 }
+impl KvRef { uninterp spec fn ent(&self) -> Ent; }
+// `KeyValueRef::from(entry)`
+#[verifier::external_body]
+fn kvr_from(entry: &KeyValuePair) -> (r: KvRef) ensures r.ent() == ent_of_pair(*entry) { unimplemented!() }
+impl LogBatch {
+    uninterp spec fn items(&self) -> Seq<Ent>;
+    #[verifier::external_body]
+    fn default() -> (r: LogBatch) ensures r.items() == Seq::<Ent>::empty() { unimplemented!() }
+    #[verifier::external_body]
+    fn insert(&mut self, kvr: KvRef) -> (r: Result<(), SError>)
+        ensures r is Ok ==> final(self).items() == old(self).items().push(kvr.ent()),
+    { unimplemented!() }
+}
+#[verifier::external_body]
+struct ConcurrentLog { _p: u8 }
+impl ConcurrentLog {
+    // a batch holding exactly these entries is in the log, whole, and covered by a completed fdatasync
+    uninterp spec fn acked(&self, items: Seq<Ent>) -> bool;
+    #[verifier::external_body]
+    fn append(&self, b: LogBatch) -> (r: Result<(), SError>) ensures r is Ok ==> self.acked(b.items()) { unimplemented!() }
+}
+struct KeyValueStore { _p: u8 }
+impl KeyValueStore {
+    #[verifier::external_body]
+    fn poison(&self, r: Result<(), SError>) -> (q: Result<(), SError>) ensures (q is Ok) == (r is Ok) { unimplemented!() }
+
+//@ extract lsmtk/src/kvs/mod.rs | impl KeyValueStore :: fn log_and_apply
+//@ ret r
+//@ rewrite X20 `memtable: &MemTable,` => `memtable: &mut MemTable,`
+//@ rewrite X18 `log: &ConcurrentLogBuilder<File>,` => `log: &ConcurrentLog,`
+//@ rewrite X7 `sst::log::WriteBatch::default()` => `LogBatch::default()`
+//@ rewrite X13 `for entry in batch.entries.iter() {` => `for idx in 0..batch.entries.len() { let entry = &batch.entries[idx];`
+//@ rewrite-re X7 `KeyValueRef::from\((\w+)\)` => `kvr_from(\1)`
+//@ pre <<
+        sorted(old(memtable).ents()), batch_fresh(old(batch).entries@, old(memtable).ents()),
+//@ >>
+//@ post <<
+        final(batch).entries@ == old(batch).entries@,
+        // write-ahead: unless the log acknowledged exactly this batch, the memtable is untouched
+        !log.acked(batch_items(old(batch).entries@)) ==> final(memtable).ents() == old(memtable).ents(),
+        r is Err ==> final(memtable).ents() == old(memtable).ents(),
+        // success: logged and applied
+        r is Ok ==> log.acked(batch_items(old(batch).entries@)) && sorted(final(memtable).ents())
+            && (forall|e: Ent| #[trigger] final(memtable).ents().contains(e) <==> (old(memtable).ents().contains(e) || in_batch(old(batch).entries@, old(batch).entries@.len() as int, e))),
+//@ >>
+//@ loop 0 <<
+            invariant batch.entries@ == old(batch).entries@, *memtable == *old(memtable),
+                /* contract-inv */ log_batch.items() == batch_items(batch.entries@).subrange(0, idx as int),
+//@ >>
+//@ endloop 0 <<
+            proof {
+                let bi = batch_items(batch.entries@);
+                assert(bi.subrange(0, idx as int + 1) =~= bi.subrange(0, idx as int).push(bi[idx as int]));
+            }
+//@ >>
+//@ afterloop 0 <<
+        proof { let bi = batch_items(batch.entries@); assert(bi.subrange(0, bi.len() as int) =~= bi); }
+//@ >>
+//@ end
+}
+
+//@ min-verified 7
 } // verus!
 fn main() {}
